@@ -109,8 +109,10 @@ TLists == /\ IsEvent("lists")
                  canon == [i \in 1..Len(E.variants) |-> CanonicalName(E, E.variants[i])] IN
              /\ Require(e.def = E.id, l, "lists: event is about another definition", e.def)
              /\ Require(/\ e.count = N /\ e.iter_count = N /\ e.iter = L
-                        /\ e.names = canon /\ e.array = AllIdx
-                        /\ (N = Len(E.variants) => (Len(e.names) = N /\ Len(e.array) = N /\ e.array = e.iter)),
+                        /\ e.names = canon
+                        \* an enum with payloads cannot derive VariantArray: the event then carries no array
+                        /\ (e.noarr \/ e.array = AllIdx)
+                        /\ (N = Len(E.variants) => (Len(e.names) = N /\ (e.noarr \/ (Len(e.array) = N /\ e.array = e.iter)))),
                         l, "lists", [def |-> E.id, count |-> e.count, iter |-> e.iter, names |-> e.names, array |-> e.array,
                                      expected_iter |-> L, expected_names |-> canon])
           /\ UNCHANGED <<E, L, N, its, lost>>
